@@ -45,6 +45,10 @@ func runC16(c *Ctx) {
 
 	c.Rule("R16g", ruleTextPlanOpts, 2)
 	checkPlanOptsForwarded(c, "R16g")
+	c.Rule("R16h", ruleTextCloneQualifier, 2)
+	checkCloneQualifier(c, "R16h")
+	c.Rule("R16i", ruleTextScopeCoversKinds, 2)
+	checkScopeCoversKinds(c, "R16i")
 
 	prog := c.SSA()
 	cg := c.CHA()
